@@ -166,7 +166,8 @@ def tlc(spec_dir, module, cfg=None, workers=1, args=(), env=None, timeout=1800, 
     os.makedirs(meta, exist_ok=True)
     cp = ":".join([JAR, CMJAR, JAVACLS])
     cmd = ["java", "-XX:+UseParallelGC", "-Xss" + xss, "-Xmx" + xmx,
-           "-Dtlc2.overrides.TLCOverrides=tlc2.overrides.TLCOverrides:VTLCOverrides"]
+           "-Dtlc2.overrides.TLCOverrides=tlc2.overrides.TLCOverrides:VTLCOverrides",
+           "-Djava.io.tmpdir=" + meta]
     cmd += ["-D" + p for p in java_props]
     cmd += ["-cp", cp, "tlc2.TLC", "-workers", str(workers), "-metadir", meta, "-noGenerateSpecTE"]
     if coverage:
